@@ -60,19 +60,19 @@ func RegisterSeq(c *SeqCheck) {
 }
 
 type seqArg struct {
-	ID      string    `json:"id"`
-	Tier    string    `json:"tier"`
-	Spec    int       `json:"spec"`
-	Mode    string    `json:"mode"` // expand | probe
+	ID      string     `json:"id"`
+	Tier    string     `json:"tier"`
+	Spec    int        `json:"spec"`
+	Mode    string     `json:"mode"` // expand | probe
 	Hists   [][]uint16 `json:"hists"`
-	Verbose bool      `json:"verbose"`
+	Verbose bool       `json:"verbose"`
 }
 
 type succOut struct {
-	FP    string      `json:"fp"`
-	Viol  []Violation `json:"viol,omitempty"`
-	Dead  bool        `json:"dead,omitempty"`
-	NReq  int         `json:"nreq"`
+	FP   string      `json:"fp"`
+	Viol []Violation `json:"viol,omitempty"`
+	Dead bool        `json:"dead,omitempty"`
+	NReq int         `json:"nreq"`
 }
 
 type expandOut struct {
